@@ -86,23 +86,28 @@ static char *ext_fifo_pop(char *fifo)
 }
 
 enum st { ST_READY, ST_IN_OP, ST_WAIT, ST_DONE, ST_HOLD };
-static enum st state[3];
+static enum st state[4];
 static unsigned received, sent_ok, next_expected = 1;
 
 #if MODE == 0
 /* thread 0 = producer, thread 1 = consumer (thread 2 = second consumer or producer if ROLE2 is set) */
-static struct F_w_uqueue_push fpush[3];
-static struct F_w_uqueue_pop fpop[3];
-static unsigned todo[3];            /* producer: elements still to push; consumer: unused */
-static bool is_prod[3];
+static struct F_w_uqueue_push fpush[4];
+static struct F_w_uqueue_pop fpop[4];
+static unsigned todo[4];            /* producer: elements still to push; consumer: unused */
+static bool is_prod[4];
 #define TOTAL (NEL * NPROD)
 
 static bool enabled(int t)
 {
     if (state[t] == ST_DONE)
         return false;
-    if (state[t] == ST_WAIT)
-        return ev_count[is_prod[t] ? 0 : 1] > 0;
+    if (state[t] == ST_IN_OP)
+        return true;
+    if (!is_prod[t])            /* a consumer is a level-triggered watcher on event_pop: after ANY pop (successful or not)
+                                 * it is back in its event loop and runs again only while the descriptor is readable */
+        return ev_count[1] > 0;
+    if (state[t] == ST_WAIT)    /* a producer whose push failed waits for event_push; otherwise it pushes when it has data */
+        return ev_count[0] > 0;
     return true;
 }
 #define SLICE(T)                                                                        \
@@ -246,6 +251,9 @@ int main(void)
         SLICE(1)
 #if NT > 2
         SLICE(2)
+#endif
+#if NT > 3
+        SLICE(3)
 #endif
     }
 #ifdef WITNESS
